@@ -432,10 +432,10 @@ def run_group7(group):
 # generators
 # ---------------------------------------------------------------------------
 # source labelings: label(pre-order index, depth, sibling index) -> (universe index, explicit data_id)
-SRC_UNIV = ["s:a", "e:5", "e:5", "p:1", "s:x", "s:y", "s:z", "s:new", "i:7"]      # 1 and 2: equal but distinct objects
+SRC_UNIV = ["s:a", "e:5", "e:5", "d:3", "s:x", "s:y", "s:z", "s:new", "i:7"]      # 1 and 2: equal but distinct objects (no identity-hashed object: a group replays its setup once per alternative)
 _MIX = {0: (0, None), 1: (1, "X1"), 2: (2, 5), 3: (3, None)}
 SRC_LABELINGS = {
-    # clones in different parents, explicit str/int data_ids on equal-comparing distinct objects, an identity-hashed object
+    # clones in different parents, explicit str/int data_ids on equal-comparing distinct objects, a frozen dataclass
     "mixed": lambda i, d, s: _MIX[(d + s) % 4],
     # every node another object of one equality class, told apart only by explicit ids
     "equal": lambda i, d, s: (1 if i % 2 else 2, f"k{i}"),
